@@ -8,12 +8,13 @@ TRUSTED = [
     "Model/RRuleStr.lean is a hand model of rrule.__str__ and of _rrulestr._parse_rfc/_parse_rfc_rrule/_handle_* at the level of the keyword arguments handed to rrule()/rruleset; tied by the rrs.str / rrs.parse correspondence ops (the implementation's constructor calls are recorded in-process)",
     "date values go through parser.parse in the real code (C02); the model covers only the compact form YYYYMMDDTHHMMSS[Z] that __str__ emits — other spellings are compared on the implementation only",
     "rrule(**kwargs) itself is C01's constructor; 'same kwargs => same occurrences' is determinism of C01's model",
-    "TZID resolution is modelled (tzidOf: name table from the text as written, case-insensitive, after the optional unfold; tzids lookup) and compared in the correspondence through a tzids callable that remembers the looked-up name; no theorem is stated about it; what ignoretz / tzinfos do inside parser.parse is C02",
-    "str_roundtrip_rule takes the two date values over unchanged (backArgs): parser.parse reading the compact text back is C02, tied by correspondence and oracle only; compact_roundtrip is about the driver's display helper",
-    "the unfold loop (ICal.unfold, shared with C17) and RDATE/EXDATE/DTSTART parameters are in the model and the correspondence but no theorem is stated about them; multi_line_builds_set is for parameter-less lines joined by newlines without unfold",
+    "TZID resolution (the pre-scan, the name table, the parameter loop of _parse_date_value, the zone attach) and the unfold loop are re-translated from source on every run (harness/translate_str.py -> Generated/RRuleStrKernels.lean) and tied to the hand model by gen_prefix_eq_model / gen_unfold_loop_eq_model / gen_dateParms_eq_model; the translation is run (ops rrsgen.*) against the very statements it was made from, compiled from the same AST nodes",
+    "Model/StrPy.lean's regular expressions are a deterministic matcher for three item shapes; the translator accepts a pattern only when Python's backtracking matcher cannot differ from it (optional character followed by a different literal; [^..]+ followed by a class it excludes), parsed with Python's own re parser; what ignoretz / tzinfos do inside parser.parse is C02",
+    "str_roundtrip_rule* / str_roundtrip_occurrences take the two date values over unchanged (backArgs / backArgsNaive); that parser.parse reads the compact text back as that naive datetime is date_text_read_back (C02's parser model and its parse_compact); the parser model's tie to the real parser.parse is C02's correspondence; compact_roundtrip is about the driver's display helper",
+    "RDATE/EXDATE/DTSTART line dispatch is hand-modelled (correspondence); multi_line_builds_set is for parameter-less lines joined by newlines without unfold; unfold_fold is about the unfold path",
 ]
 ASSUMPTIONS = [
-    "the theorems str_roundtrip* / str_roundtrip_rule are about calendar.firstweekday() == 0 (the interpreter's default); str_roundtrip_rule_ambient states the ambient value explicitly; the oracle and the correspondence also run under setfirstweekday(0..6)",
+    "the theorems str_roundtrip* / str_roundtrip_rule are about calendar.firstweekday() == 0 (the interpreter's default); str_roundtrip_rule_ambient states the ambient value explicitly (every k, no hypothesis on the week start since the repair of D-C13-ambient-wkst) and str_roundtrip_rule_cross_ambient a different first weekday on the reading side; the oracle and the correspondence also run under setfirstweekday(0..6)",
     "texts in the correspondence are ASCII (str.upper/split/splitlines/int are modelled for ASCII)",
     "aware dtstart through str() is excluded by the property itself (upstream xfail)",
 ]
@@ -119,14 +120,19 @@ def six(dt):
 def olist(v):
     return "-" if v is None else ilist(v)
 
-def str_request(r):
+def str_request(r, fwd=None):
+    """the model's `__str__` inputs: the rule's attributes and `calendar.firstweekday()` as it is when str(r) is taken
+    (call this next to the str(r) it is compared with, under the same ambient value)"""
+    import calendar
+    if fwd is None:
+        fwd = calendar.firstweekday()
     o = r._original_rule
     wd = o.get("byweekday")
     wds = "-" if wd is None else "[" + ",".join("%d/%s" % (w.weekday, "-" if w.n is None else w.n) for w in wd) + "]"
-    return "rrs.str %s %d %d %d %s %s %s %s %s %s %s %s %s %s %s %s" % (
+    return "rrs.str %s %d %d %d %s %s %s %s %s %s %s %s %s %s %s %s %d" % (
         six(r._dtstart), r._freq, r._interval, r._wkst, "-" if r._count is None else r._count, six(r._until),
         olist(o.get("bysetpos")), olist(o.get("bymonth")), olist(o.get("bymonthday")), olist(o.get("byyearday")),
-        olist(o.get("byeaster")), olist(o.get("byweekno")), wds, olist(o.get("byhour")), olist(o.get("byminute")), olist(o.get("bysecond")))
+        olist(o.get("byeaster")), olist(o.get("byweekno")), wds, olist(o.get("byhour")), olist(o.get("byminute")), olist(o.get("bysecond")), fwd)
 
 # every datetime that came out of a `parser.parse` call made by rrulestr, with the options that call was given
 PO = {}            # id(result) -> (ignoretz, tzinfos-is-the-object-passed)
@@ -462,7 +468,123 @@ def path_variants(rng, s):
 
 # ------------------------------------------------------------------ correspondence
 
+# ------------------------------------------------------------------ the source translation (Generated/RRuleStrKernels.lean)
+
+def gen_correspondence(ctx, rules, rng):
+    """the definitions translated from `_parse_rfc` (prefix: compatible switch, TZID pre-scan, upper, empty check, unfold loop /
+    split) and `_parse_date_value` (parameter loop, zone attach) are run in the driver and compared with the VERY STATEMENTS
+    they were translated from, executed by the interpreter (compiled from the same AST nodes of the working tree)"""
+    import ast, os, re, sys
+    import vlib, translate_str as TS
+    import dateutil.tz as TZ
+    loc = TS.locate(os.path.join(vlib.REPO, "src", "dateutil"))
+    def frag(stmts):
+        return compile(ast.fix_missing_locations(ast.Module(body=list(stmts), type_ignores=[])), "<rrule.py statements>", "exec")
+    c_prefix, c_parms, c_attach = frag(loc["prefix"]), frag(loc["parms"]), frag(loc["attach"])
+    def base_ns():
+        return {"re": re, "parser": sys.modules.get("dateutil.parser") or __import__("dateutil.parser"), "__package__": "dateutil", "__name__": "dateutil.rrule",
+                "self": None}
+    # 1. prefix
+    texts = []
+    for r, s_, _ in rules[:ctx.budget(150, 1500)]:
+        t = s_ + rng.choice(["", "", "\nEXDATE:19970903T090000", "\nRDATE:19970910T090000"])
+        if rng.random() < 0.6:
+            t = spell_date_lines(rng, t, tzid=rng.choice(["Foo/Bar", "America/New_York", "x", "a b", "Eastern Standard Time", "Z=1", "tzid=inner", "Foo/BAR"]))
+        if rng.random() < 0.7:
+            t = fold(rng, t, rng.random() < 0.5)
+        if rng.random() < 0.3:
+            k = rng.randint(0, len(t))
+            t = t[:k] + rng.choice([" ", "\n ", "\r\n ", "\r ", "\t", "TZID=", "tzid=q;", ":", ";", "\n", "\x0b", "\x0c", "\x1c", "\x1d", "\x1e", "\x1f", " \n  "]) + t[k:]
+        texts.append(t)
+    alpha = " \t\r\n\n  ;:=TZIDtzidaB\x0b\x1c"
+    for _ in range(ctx.budget(150, 1500)):
+        texts.append("".join(rng.choice(alpha) for _ in range(rng.randint(0, 24))))
+    texts += ["", " ", "\n", " \n x", "\n x", "a\n \n b", "a\n b\n  c \n d", "TZID=a:TZID=B;tzid=A:", "x;TZID=:y", "TZID=a", "TZID=a\n b:c", "TZID=a\r\n b:c", "TZID=a\r b:c"]
+    reqs, exp = [], []
+    for t in texts:
+        for flags in rng.sample([(0, 0, 0), (1, 0, 0), (0, 1, 0), (0, 0, 1), (1, 1, 0)], 2):
+            ns = base_ns(); ns.update(s=t, unfold=bool(flags[0]), forceset=bool(flags[1]), compatible=bool(flags[2]))
+            try:
+                exec(c_prefix, ns)
+                e = ("ok", bool(ns["forceset"]), bool(ns["unfold"]), dict(ns["TZID_NAMES"]), ns["s"], list(ns["lines"]))
+            except Exception as ex:
+                e = "err " + exc_kind(ex)
+            reqs.append("rrsgen.prefix %d%d%d %s" % (flags + (hexs(t),))); exp.append(e)
+    def unhex(h):
+        return "" if h == "." else bytes.fromhex(h).decode()
+    def parse_prefix(g):
+        if not g.startswith("ok "):
+            return g
+        f = g.split(" ")
+        names = {}
+        for pair in ([] if f[3] == "[]" else f[3][1:-1].split(",")):
+            k, v = pair.split(":"); names[unhex(k)] = unhex(v)          # a later pair overwrites an earlier one, like dict()
+        lines = [] if f[5] == "[]" else [unhex(x) for x in f[5][1:-1].split(",")]
+        return ("ok", f[1] == "1", f[2] == "1", names, unhex(f[4]), lines)
+    got = ctx.driver(reqs)
+    for q, e, g in zip(reqs, exp, got):
+        if parse_prefix(g) != e:
+            ctx.mismatch("rrsgen.prefix (translated _parse_rfc prefix vs the statements themselves)", q, e, g)
+    ctx.traces += len(reqs); ctx.count("gen_prefix_cases", len(reqs))
+    # 2. the parameter loop
+    class Mark(object):
+        def __init__(self, how, name): self.how, self.name = how, name
+    class Mapping(object):
+        def get(self, k, default=None): return Mark("m", k)
+    pool = ["TZID=X", "TZID=Y", "TZID=NOPE", "VALUE=DATE-TIME", "VALUE=DATE", "FOO=1", "TZID=", "TZID=ATZID=X", "XTZID=Y", "TZID=X;", "tzid=X", "", "VALUE=DATE-TIME "]
+    reqs, exp = [], []
+    saved = TZ.gettz
+    try:
+        TZ.gettz = lambda name=None: Mark("g", name)
+        for _ in range(ctx.budget(300, 3000)):
+            parms = [rng.choice(pool) for _ in range(rng.randint(0, 4))]
+            table = {k: rng.choice(["X", "x", "Foo/Bar", "a b"]) for k in rng.sample(["X", "Y", "", "ATZID=X", "X;"], rng.randint(0, 3))}
+            kind = rng.choice(["none", "callable", "mapping", "other"])
+            tzids = {"none": None, "callable": (lambda n: Mark("c", n)), "mapping": Mapping(), "other": object()}[kind]
+            ns = base_ns(); ns.update(parms=parms, rule_tzids=table, tzids=tzids, date_value="", ignoretz=False, tzinfos=None)
+            try:
+                exec(c_parms, ns)
+                z = ns["TZID"]
+                e = "ok %s %d" % ("-" if z is None else "l" + z.how + hexs(z.name), int(bool(ns["value_found"])))
+            except Exception as ex:
+                e = "err " + exc_kind(ex)
+            reqs.append("rrsgen.parms %s [%s] [%s]" % (kind, ",".join(hexs(k) + ":" + hexs(v) for k, v in table.items()), ",".join(hexs(x) for x in parms)))
+            exp.append(e)
+    finally:
+        TZ.gettz = saved
+    got = ctx.driver(reqs)
+    for q, e, g in zip(reqs, exp, got):
+        if e != g:
+            ctx.mismatch("rrsgen.parms (translated _parse_date_value parameter loop vs the statements themselves)", q, e, g)
+    ctx.traces += len(reqs); ctx.count("gen_parms_cases", len(reqs))
+    # 3. attaching the zone: all nine combinations
+    zones = {"-": None, "t": datetime.timezone.utc, "lc" + hexs("X"): datetime.timezone(datetime.timedelta(hours=1), "X")}
+    back = {id(v): k for k, v in zones.items()}
+    reqs, exp = [], []
+    for a, za in zones.items():
+        for b, zb in zones.items():
+            ns = base_ns(); ns.update(TZID=za, date=datetime.datetime(1997, 9, 2, 9, 0, tzinfo=zb))
+            try:
+                exec(c_attach, ns)
+                e = "ok " + back[id(ns["date"].tzinfo)]
+            except Exception as ex:
+                e = "err " + exc_kind(ex)
+            reqs.append("rrsgen.attach %s %s" % (a, b)); exp.append(e)
+    got = ctx.driver(reqs)
+    for q, e, g in zip(reqs, exp, got):
+        if e != g:
+            ctx.mismatch("rrsgen.attach (translated zone attach statement vs the statement itself)", q, e, g)
+    ctx.traces += len(reqs)
+
 def correspondence(ctx):
+    import time as _time
+    t0 = _time.time()
+    try:
+        _correspondence(ctx)
+    finally:
+        ctx.count("seconds_correspondence", int(round(_time.time() - t0)))
+
+def _correspondence(ctx):
     basecorr.run(ctx)
     rng = ctx.subrng("corr")
     n = ctx.budget(500, 10000)
@@ -484,6 +606,7 @@ def correspondence(ctx):
             ctx.c13_str_mismatch_rules.append({"rule": rl[2]})
             ctx.mismatch("rrs.str", q, bytes.fromhex(e[3:]).decode() if e[3:] != "." else "", bytes.fromhex(g[3:]).decode() if g.startswith("ok ") and g[3:] != "." else g)
     ctx.traces += len(reqs)
+    gen_correspondence(ctx, rules, ctx.subrng("corr-gen"))
     # the same two ops under an ambient first weekday (the model's str/parse do not depend on it; _wkst does)
     import calendar
     saved_fwd = calendar.firstweekday()
@@ -779,7 +902,8 @@ def oracle_options(ctx):
     from dateutil import rrule as R
     rng = ctx.subrng("oracle-options")
     done = 0
-    for i in range(ctx.budget(45, 1500)):
+    # thorough budget 900 (was 1500): measured 0.35 s per case; with 1500 this stream alone took 9 of the 21.5 minutes of a thorough run
+    for i in range(ctx.budget(45, 900)):
         if ctx.escalated and ctx.unknown_violations() >= 5:
             break
         freq, ds, kw = gen_kwargs(rng, small_years=False)
@@ -987,25 +1111,38 @@ def oracle_ambient(ctx):
             except Exception as ex:
                 ctx.violation("under calendar.setfirstweekday(%d) rrulestr(str(rule)) raised %s" % (k, exc_kind(ex)), case, repr(ex)); continue
             if got != base:
-                # D-C13-ambient-wkst is claimed only with: model = implementation for str() and the parse of that text, and the
-                # reparsed occurrences being those of the same arguments with wkst = the ambient value
-                try:
-                    with relaxed():
-                        res, _ = impl_parse(s)
-                        m = ctx.driver([str_request(r), "rrs.parse 0000000 %s" % hexs(s)])
-                        case["model_agrees_with_implementation"] = bool(m[0] == "ok " + hexs(s) and canon_impl(res, m[1]) == m[1])
-                        case["explained_by_ambient_week_start"] = bool(head(iter(build(freq, ds, dict(kw, wkst=k)))) == got)
-                except Timeout:
-                    ctx.count("skipped_explanation_timed_out"); continue      # no verdict on this case, not a violation
-                except Exception as ex:
-                    case["model_agrees_with_implementation"] = False; case["matcher_error"] = repr(ex)
+                # regression stream of the repaired D-C13-ambient-wkst (pending_fixes/D-C13-ambient-wkst.diff): __str__ prints WKST
+                # whenever _wkst or calendar.firstweekday() is non-zero, so no ambient value excuses a difference any more
                 ctx.violation("under calendar.setfirstweekday(%d) rrulestr(str(rule)) generates different occurrences" % k, case,
                               {"rule": [d.isoformat() for d in base[:4]], "reparsed": [d.isoformat() for d in got[:4]]})
                 continue
-            # text -> rule under the ambient value: an explicit WKST in the text wins, no WKST means the ambient value
-            for wk_txt, wk in (("", k), (";WKST=MO", 0), (";WKST=SU", 6)):
-                if "WKST=" in s:
+            if (k != 0 or r._wkst != 0) != ("WKST=" in s):
+                ctx.violation("under calendar.setfirstweekday(%d) str(rule) %s WKST for _wkst=%d" % (k, "prints" if "WKST=" in s else "omits", r._wkst),
+                              dict(case, kind="ambient-wkst-part"), None)
+                continue
+            if "WKST=" in s and k != 0:
+                # a text that carries WKST means the same rule under every reader's first weekday (str_roundtrip_rule_cross_ambient)
+                k2 = rng.choice([x for x in range(7) if x != k])
+                calendar.setfirstweekday(k2)
+                try:
+                    with warnings.catch_warnings():
+                        warnings.simplefilter("ignore")
+                        got2 = head(iter(R.rrulestr(s)))
+                except Timeout:
+                    got2 = base
+                except Exception as ex:
+                    got2 = repr(ex)
+                finally:
+                    calendar.setfirstweekday(k)
+                ctx.case((s, k, k2, "ambient-cross"))
+                if got2 != base:
+                    ctx.violation("text written under setfirstweekday(%d) and read under setfirstweekday(%d) generates different occurrences" % (k, k2),
+                                  dict(case, kind="ambient-cross", reader_firstweekday=k2), None)
                     continue
+            # text -> rule under the ambient value: an explicit WKST in the text wins, no WKST means the ambient value
+            import re as _re
+            s_full, s = s, _re.sub(r";WKST=[A-Z][A-Z]", "", s)       # the text without its WKST part (printed under k != 0 since the repair)
+            for wk_txt, wk in (("", k), (";WKST=MO", 0), (";WKST=SU", 6)):
                 try:
                     want = head(iter(build(freq, ds, dict(kw, wkst=wk))))
                     with warnings.catch_warnings():
@@ -1118,16 +1255,93 @@ def explain_empty_by(ctx, case, r, s, freq, ds, kw, observed):
     except Exception as ex:
         case["model_agrees_with_implementation"] = False; case["matcher_error"] = repr(ex)
 
+def oracle_fold_space(ctx):
+    """folds of a DTSTART;TZID=<name with spaces> line at every kind of position, in particular right after a space: in the
+    first physical line (must work: unfold_fold) and in a continuation line (known finding D-C13-fold-after-space)"""
+    from dateutil import rrule as R
+    rng = ctx.subrng("oracle-foldspace")
+    explained = 0
+    for _ in range(ctx.budget(60, 600)):
+        if ctx.escalated and ctx.unknown_violations() >= 5:
+            break
+        freq, ds, kw = gen_kwargs(rng, small_years=False)
+        kw = {a: v for a, v in kw.items() if not (isinstance(v, (tuple, list)) and len(v) == 0)}
+        name = rng.choice(["Eastern Standard Time", "a b", "A  B c", "W. Europe Standard Time", "x y z"])
+        try:
+            r = build(freq, ds, kw)
+            s = str(r)
+            want = head(iter(build(freq, ds.replace(tzinfo=MarkTz(name)), kw)))
+        except (ValueError, Timeout, ZeroDivisionError, OverflowError, IndexError, TypeError):
+            continue
+        first, rest = s.split("\n", 1)
+        logical = "DTSTART;TZID=%s:%s" % (name, first.split(":", 1)[1])
+        after_space = [i + 1 for i, c in enumerate(logical) if c == " " and i + 1 < len(logical)]
+        cuts = set(rng.sample(range(1, len(logical)), rng.randint(0, 3)))
+        if rng.random() < 0.8:
+            cuts.update(rng.sample(after_space, rng.randint(1, min(2, len(after_space)))))
+        pieces, prev = [], 0
+        for k in sorted(cuts):
+            pieces.append(logical[prev:k]); prev = k
+        pieces.append(logical[prev:])
+        if not pieces[0].strip() or any(not p.strip() for p in pieces[1:]):
+            continue                                   # whitespace-only pieces: a different question (blank lines are dropped)
+        brk = rng.choice(["\n", "\r\n"])
+        text = pieces[0] + "".join(brk + " " + p for p in pieces[1:]) + brk + rest
+        lost = any(p.endswith(" ") for p in pieces[1:])
+        if lost and explained >= 40:
+            ctx.count("fold_space_lost_not_resampled"); continue      # the listed class has been sampled enough (each case costs a driver call)
+        explained += int(lost)
+        case = {"kind": "fold-space", "text": text, "tzid": name, "continuation_piece_ends_in_space": lost,
+                "kwargs": repr(kw), "freq": freq, "dtstart": ds.isoformat()}
+        ctx.case((text, "fold-space")); ctx.count("fold_space_lost" if lost else "fold_space_kept")
+        def run(t):
+            try:
+                with warnings.catch_warnings():
+                    warnings.simplefilter("ignore")
+                    got = head(iter(R.rrulestr(t, unfold=True, tzids=mark_tz)))
+                return [(d.replace(tzinfo=None), getattr(d.tzinfo, "looked_up", d.tzinfo)) for d in got]
+            except Timeout:
+                raise
+            except Exception as ex:
+                return "raised " + exc_kind(ex)
+        try:
+            got = run(text)
+            if got != [(d.replace(tzinfo=None), name) for d in want]:
+                if lost:
+                    # the symptom the finding describes: the TZID parameter is no longer found in the name table, the zone is
+                    # silently dropped (naive start, same wall-clock occurrences) — and the Lean model says the same of this text
+                    case["explained_by_dropped_zone"] = bool(got == [(d.replace(tzinfo=None), None) for d in want])
+                    try:
+                        with relaxed():
+                            res, _ = impl_parse(text, unfold=True, tzids=mark_tz)
+                            m = ctx.driver(["rrs.parse 1000000 %s" % hexs(text)])
+                            case["model_agrees_with_implementation"] = bool(canon_impl(res, m[0]) == m[0])
+                    except Timeout:
+                        ctx.count("skipped_explanation_timed_out"); continue
+                    except Exception as ex:
+                        case["model_agrees_with_implementation"] = False; case["matcher_error"] = repr(ex)
+                ctx.violation("a folded DTSTART;TZID line does not give the start and zone of the keyword construction", case,
+                              {"got": repr(got)[:300]})
+        except Timeout:
+            ctx.count("skipped_ctor_or_slow")
+
 def oracle(ctx):
     from dateutil import rrule as R, tz
     # the cheap sections first, so that the failing-input search after a correspondence mismatch reaches them early
-    oracle_fresh(ctx)
-    oracle_ambient(ctx)
-    oracle_options(ctx)
-    oracle_sets(ctx)
-    oracle_malformed(ctx)
+    import time as _time
+    for part in (oracle_fresh, oracle_ambient, oracle_fold_space, oracle_options, oracle_sets, oracle_malformed):
+        t0 = _time.time()
+        part(ctx)
+        ctx.count("seconds_" + part.__name__, int(round(_time.time() - t0)))      # where the wall time goes (evidence)
+    t0 = _time.time()
+    try:
+        oracle_roundtrips(ctx, R, tz)
+    finally:
+        ctx.count("seconds_oracle_roundtrips", int(round(_time.time() - t0)))
+
+def oracle_roundtrips(ctx, R, tz):
     rng = ctx.subrng("oracle")
-    n = ctx.budget(330, 10000)
+    n = ctx.budget(330, 7500)      # thorough 7500 (was 10000): 45 ms per rule; keeps the thorough tier near its 15 minute budget
     shown = 0
     # rules on which the model and str() disagreed come first (failing-input search after a correspondence mismatch)
     seeded = [m["rule"] for m in getattr(ctx, "c13_str_mismatch_rules", [])][:200]
@@ -1233,15 +1447,36 @@ def empty_by_list(case):
             and case.get("model_agrees_with_implementation") is True
             and case.get("explained_by_default_of_dropped_part") is True)
 
-def ambient_wkst(case):
-    """D-C13-ambient-wkst, tight: ambient first weekday != 0, the rule's own week start is Monday (so WKST is not printed),
-    the model reproduces the implementation's str() and parse on this rule, and the reparsed occurrences are those of the same
-    arguments with wkst = the ambient value"""
-    return (case.get("kind") == "ambient" and case.get("ambient_firstweekday") not in (0, None) and case.get("rule_wkst") == 0
-            and case.get("model_agrees_with_implementation") is True and case.get("explained_by_ambient_week_start") is True)
+def fold_after_space(case):
+    """D-C13-fold-after-space, tight: a continuation piece of the folded DTSTART;TZID line ends in a space the outcome is
+    exactly the keyword construction with the zone dropped (naive start), AND the Lean model says the same of this very text"""
+    return (case.get("kind") == "fold-space" and case.get("continuation_piece_ends_in_space") is True
+            and case.get("explained_by_dropped_zone") is True and case.get("model_agrees_with_implementation") is True)
 
 KNOWN = {"D-C13-empty-by-list": lambda v: empty_by_list(v["case"]),
-         "D-C13-ambient-wkst": lambda v: ambient_wkst(v["case"])}
+         "D-C13-fold-after-space": lambda v: fold_after_space(v["case"])}
+
+def replay_ambient(case):
+    """an ambient-first-weekday case re-evaluated on the current tree"""
+    import calendar
+    from dateutil import rrule as R
+    ns = dict(vars(R)); ns["datetime"] = datetime
+    kw = eval(case["kwargs"], ns)
+    ds = datetime.datetime.fromisoformat(case["dtstart"])
+    saved = calendar.firstweekday()
+    try:
+        k = case["ambient_firstweekday"]
+        calendar.setfirstweekday(k)
+        r = R.rrule(case["freq"], dtstart=ds, **kw)
+        base = list(itertools.islice(r, 10)); s = str(r)
+        calendar.setfirstweekday(case.get("reader_firstweekday", k))
+        got = list(itertools.islice(R.rrulestr(s), 10))
+        ok = got == base and ((k != 0 or r._wkst != 0) == ("WKST=" in s))
+        if not ok:
+            print("still failing under setfirstweekday(%d):" % k, repr(s), [d.isoformat() for d in base[:4]], "->", [d.isoformat() for d in got[:4]])
+        return ok
+    finally:
+        calendar.setfirstweekday(saved)
 
 def replay(ctx, payload):
     """re-evaluate the recorded failing case on the current tree (option cases are rebuilt from the recorded rule,
@@ -1249,6 +1484,8 @@ def replay(ctx, payload):
     import json, random
     v = payload["violation"]; case = v["case"]
     print(v["what"]); print(json.dumps(case, default=str)[:1500])
+    if case.get("kind") in ("ambient", "ambient-cross", "ambient-wkst-part"):
+        return replay_ambient(case)
     if case.get("kind") != "options":
         return False
     from dateutil import rrule as R
